@@ -37,6 +37,23 @@ func init() {
 	})
 }
 
+// fullSliceOf: x for x[:] (and for a local that holds it), v otherwise.
+func fullSliceOf(v ssa.Value) ssa.Value {
+	for k := 0; k < 4; k++ {
+		sl, ok := v.(*ssa.Slice)
+		if !ok || sl.High != nil || sl.Max != nil {
+			return v
+		}
+		if sl.Low != nil {
+			if n, isK := core.ConstInt(sl.Low); !isK || n != 0 {
+				return v
+			}
+		}
+		v = sl.X
+	}
+	return v
+}
+
 func c16r1(c *core.Ctx) {
 	p := c.P
 	w := p.Func("util", "(*tlv8Container).BytesBuffer")
@@ -55,6 +72,7 @@ func c16r1(c *core.Ctx) {
 			for _, arg := range writtenPieces(arg0) {
 				d := "?"
 				name := func(v ssa.Value) string {
+					v = fullSliceOf(v)
 					for _, fld := range []string{"tag", "length", "value"} {
 						if _, ok := core.FieldLoad(v, tTLVItem, fld); ok {
 							return fld
@@ -295,7 +313,7 @@ func c16r2(c *core.Ctx) {
 		var extra *ssa.If
 		core.Instrs(g, func(i ssa.Instruction) {
 			if core.IsCall(i, "(*bytes.Buffer).Write") {
-				if _, isVal := core.FieldLoad(core.Args(i)[0], tTLVItem, "value"); isVal {
+				if _, isVal := core.FieldLoad(fullSliceOf(core.Args(i)[0]), tTLVItem, "value"); isVal {
 					tagEq := core.CmpFact(func(x, y ssa.Value) (bool, bool) {
 						_, a := core.FieldLoad(x, tTLVItem, "tag")
 						_, b := core.FieldLoad(y, tTLVItem, "tag")
